@@ -224,6 +224,12 @@ def gen_sort_case(rng):
 def gen_cases(rng, n_sort, n_sim):
     cases = [gen_sort_case(rng) for _ in range(n_sort)]
     for i in range(n_sim):
+        if i % 3 == 2:
+            c = gen.gen_project(rng, stream="crossing")
+            c["ops"] = [gen.gen_sim_op(rng, c, absences=False)]
+            c["ops"][0]["rule"] = rng.choice([0, 4, 5, 6, 6, 5, 1])
+            cases.append(c)
+            continue
         c = gen.gen_project(rng, stream="contention")
         if rng.random() < 0.8:
             gen.simplify_feasible(rng, c)
